@@ -378,7 +378,8 @@ pub(crate) fn stringify_reference(
             if full_row {
                 row_abs = "".to_string()
             }
-            if full_column {
+            // A range covering the whole grid is both: print it as full columns (`A:XFD`), never as `:`
+            if full_column && !full_row {
                 col_abs = "".to_string()
             }
             match &sheet_name {
